@@ -227,7 +227,7 @@ def c_group(base, vs, same, kind):
 def gen_select_base(c04suite, rng, i):
     while True:
         b = c04suite.gen(rng, i)
-        if b["form"] == "select":
+        if b["form"] == "select" and not b.get("offset"):
             break
     b["proj"] = None
     return b
